@@ -105,6 +105,9 @@ namespace chaiscript {
 
     template<typename Tracer, typename Optimizer, std::size_t Parse_Depth = 512>
     class ChaiScript_Parser final : public ChaiScript_Parser_Base {
+#ifdef CHAISCRIPT_VERIF
+      friend struct ::chaiscript_verif::Access;
+#endif
       void *get_tracer_ptr() noexcept override { return &m_tracer; }
 
       std::size_t m_current_parse_depth = 0;
